@@ -24,6 +24,7 @@ import (
 	"bufio"
 	"encoding/json"
 	"fmt"
+	"go/token"
 	"go/types"
 	"os"
 	"os/exec"
@@ -926,6 +927,88 @@ func (e *Engine) coverObligations() []*Obligation {
 			out = append(out, mkObl(fmt.Sprintf("COVER:%s:%s", ctx, el), "COVER", "formatter",
 				fmt.Sprintf("the formatter reads element %s of %s", el, ctx), ok, detail))
 		}
+	}
+	return out
+}
+
+// ---------------------------------------------------------------- LAYOUT (C10): the formatter observes tokens, not layout
+//
+// Layout independence for all inputs: two texts made of the same tokens, with every comment on the
+// line of the same token, give the lexer the same token sequence (WS is skipped: trusted lexer fact) and
+// the same same-line relation. If the formatter observes its input only through (a) token text, type and
+// index, (b) tree accessors, (c) hidden-channel queries and (d) equality of two token lines, its result is
+// the same for both texts.  One obligation per formatter function, decided on the SSA:
+//   - no call of a position accessor (GetColumn, GetStart/GetStop of a *token* i.e. character offsets,
+//     GetCharPositionInLine, GetInputStream, GetSourceInterval ...);
+//   - every result of Token.GetLine flows only into == / != against another GetLine result.
+// Idempotence is not covered by this argument (it needs the lexer on the emitted text): bounded stand-in.
+
+func (e *Engine) layoutObligations() []*Obligation {
+	forbidden := map[string]bool{"GetColumn": true, "GetCharPositionInLine": true, "GetInputStream": true, "GetSourceInterval": true, "GetTextFromInterval": true, "GetTextFromTokens": true, "GetAllText": true}
+	tokenOnly := map[string]bool{"GetStart": true, "GetStop": true} // character offsets when called on a Token (fine on a rule context: first / last token)
+	var out []*Obligation
+	for _, fn := range e.allRepoFunctions() {
+		inFormatter := fn.Signature.Recv() != nil && strings.Contains(fn.Signature.Recv().Type().String(), "PacketDslFormattor")
+		if !inFormatter && fn.Name() != "FormatPacketDsl" && fn.Name() != "formatStringList" && fn.Name() != "indentComments" {
+			continue
+		}
+		var bad []string
+		for _, b := range fn.Blocks {
+			for _, in := range b.Instrs {
+				c, ok := in.(ssa.CallInstruction)
+				if !ok {
+					continue
+				}
+				cc := c.Common()
+				name, recvT := "", ""
+				if cc.IsInvoke() {
+					name, recvT = cc.Method.Name(), cc.Value.Type().String()
+				} else if sc := cc.StaticCallee(); sc != nil && sc.Signature.Recv() != nil {
+					name, recvT = sc.Name(), sc.Signature.Recv().Type().String()
+				} else {
+					continue
+				}
+				onToken := strings.HasSuffix(recvT, "antlr/v4.Token") || strings.Contains(recvT, "CommonToken") || strings.Contains(recvT, "BaseToken")
+				switch {
+				case forbidden[name]:
+					bad = append(bad, fmt.Sprintf("%s (%s)", name, e.prog.Fset.Position(in.Pos())))
+				case tokenOnly[name] && onToken:
+					bad = append(bad, fmt.Sprintf("character offset %s of a token (%s)", name, e.prog.Fset.Position(in.Pos())))
+				case name == "GetLine" && onToken:
+					v, isVal := in.(ssa.Value)
+					if !isVal || v.Referrers() == nil {
+						continue
+					}
+					for _, r := range *v.Referrers() {
+						if _, dbg := r.(*ssa.DebugRef); dbg {
+							continue
+						}
+						cmp, ok := r.(*ssa.BinOp)
+						okUse := false
+						if ok && (cmp.Op == token.EQL || cmp.Op == token.NEQ) {
+							other := cmp.X
+							if other == v {
+								other = cmp.Y
+							}
+							if oc, ok := other.(ssa.CallInstruction); ok {
+								on := ""
+								if oc.Common().IsInvoke() {
+									on = oc.Common().Method.Name()
+								} else if sc := oc.Common().StaticCallee(); sc != nil {
+									on = sc.Name()
+								}
+								okUse = on == "GetLine"
+							}
+						}
+						if !okUse {
+							bad = append(bad, fmt.Sprintf("a token line is used other than in a comparison with another token line (%s)", e.prog.Fset.Position(r.Pos())))
+						}
+					}
+				}
+			}
+		}
+		out = append(out, mkObl("LAYOUT:"+e.shortFunc(fn)+":layout-free", "LAYOUT", fn.String(),
+			"the function observes tokens only through text, type, index, tree accessors, hidden-channel queries and equality of token lines", len(bad) == 0, strings.Join(bad, "; ")))
 	}
 	return out
 }
